@@ -31,7 +31,7 @@ m = {
     },
     "engines": [{"name": "lean4-proof+correspondence", "path": "/verif/lean, /verif/harness, /verif/tools",
                  "serves_properties": sorted(props.PROPS),
-                 "kind_free_text": "Lean 4 theorems about a hand-written executable model (lean/SyModel), tied to /repo by differential correspondence (harness + sydriver line protocol) and constants regenerated from source; independent oracle for replays"}],
+                 "kind_free_text": "Lean 4 theorems about a hand-written executable model (lean/SyModel), tied to /repo (a) by a translator (tools/rs2lean.py) that regenerates the Lean definitions of the pure decision kernels from the Rust source on every run, with bridge theorems to the model, (b) by constants regenerated from source, (c) by differential correspondence (harness + sydriver line protocol, strace trace refinement); independent oracle for replays"}],
     "checks": checks,
     "not_applicable": na,
     "notes": mm.NOTES,
